@@ -10,7 +10,7 @@ ASSUMPTIONS = ["handler atomicity (the property quantifies over histories, not t
 
 
 def correspondence(ctx):
-    return genca.correspondence(ctx, 400 if ctx.quick else 15000, 13)
+    return genca.correspondence(ctx, ctx.n(400, 15000), 13)
 
 
 def history_case(rng):
@@ -98,7 +98,7 @@ def sys_cmd(j):
 
 def oracle(ctx, full):
     rng = random.Random(ctx.seed * 7907 + 13)
-    n = 150 if (ctx.quick and not full) else 5000
+    n = ctx.n(150, 5000, full)
     findings, evals, distinct, samples = [], 0, set(), []
     for _ in range(n):
         bad, desc = history_case(random.Random(rng.getrandbits(48)))
